@@ -687,7 +687,9 @@ static void plain_access (void *addr, int size, int is_write) {
 		return;
 	}
 	if (!o->live && o->kind == K_NW && o->owner == cur) { return; } /* the owner re-using its own stack slot in a later call */
-	if (cfg.plain_sched != 0 && is_write && fibers[cur].in_api && (int) (ps_rand () % 1000) < cfg.plain_sched) {
+	/* plainsched: plain writes — and, at half the rate, plain READS (a waker reading a field of a record after the store
+	   that lets the record's owner leave) — of registered objects are scheduling points too */
+	if (cfg.plain_sched != 0 && fibers[cur].in_api && (int) (ps_rand () % 1000) < (is_write ? cfg.plain_sched : cfg.plain_sched / 2)) {
 		sched_point ();
 	}
 	if (!o->live && cfg.check_plain) {
